@@ -1,5 +1,6 @@
 import SaramaVerif.Driver.Util
 import SaramaVerif.Model.Group
+import SaramaVerif.Model.GroupWorld
 /-
   Replays the merged coordinator-request / handler-callback sequence of every group scenario through
   Model.Group.step.   Lines:
@@ -7,6 +8,8 @@ import SaramaVerif.Model.Group
     q join <member> <kerror> <dropped> <issuedMember> <issuedGen>
     q sync|heartbeat|commit <member> <gen> <kerror> <dropped>
     h setup <session> <member> <gen> | h claimstart <session> <p> <off> | h claimend <session> <p> | h cleanup <session> | h return <session>
+  Multi-member scenarios are replayed a second time, interleaved as they happened, through Model.GroupWorld.wstep:
+    gw reset | gw <client> <q… or h… line as above> | gw <client> plan <p,p,…|->
 -/
 namespace Driver.GroupTrace
 open Model.Group Driver
@@ -14,6 +17,8 @@ open Model.Group Driver
 structure DS where
   st : St := {}
   failed : Bool := false
+  world : Model.GroupWorld.World := {}
+  wfailed : Bool := false
 
 def classify (code : Int) (dropped : Bool) : Verdict :=
   if dropped then .dropped else classOfCode code
@@ -32,7 +37,21 @@ def toEv : List String → Option Ev
 
 def step (d : DS) (t : List String) : DS × String :=
   match t with
-  | ["greset", _rm] => ({}, "ok")
+  | ["greset", _rm] => ({ d with st := {}, failed := false }, "ok")
+  | ["gw", "reset"] => ({ d with world := {}, wfailed := false }, "ok")
+  | "gw" :: c :: "plan" :: [ps] =>
+    if d.wfailed then (d, "ok") else
+    match Model.GroupWorld.wstep d.world (.plan (nat! c) ((intList ps).map Int.toNat)) with
+    | .ok w' => ({ d with world := w' }, "ok")
+    | .error m => ({ d with wfailed := true }, s!"reject: {m}")
+  | "gw" :: c :: rest =>
+    if d.wfailed then (d, "ok") else
+    match toEv rest with
+    | none => (d, "bad-op")
+    | some e =>
+      match Model.GroupWorld.wstep d.world (.member (nat! c) e) with
+      | .ok w' => ({ d with world := w' }, "ok")
+      | .error m => ({ d with wfailed := true }, s!"reject: {m}")
   | _ =>
     if d.failed then (d, "ok") else
     match toEv t with
